@@ -92,6 +92,26 @@ def gen_cases(tier, seed):
                         for p2 in range(p1 + 1, n1 + 1):
                             for k2 in k2_kinds:
                                 cases.append({"cfg": cfg, "faults": {str(p1): k1, str(p2): k2}, "K": 2})
+    # small max_packet_len: the deferred NAK sequence needs several NAK PDUs (30: one request per PDU, 40: two)
+    for maxpkt in (30, 40):
+        for size in (8, 13):
+            for imm in (True, False):
+                cfg = base_cfg(size, imm, bool(maxpkt == 30), 2)
+                cfg["maxpkt"] = maxpkt
+                n = emission_count(key_of(cfg), ())
+                for pos in range(n + 1):
+                    for kind in KINDS:
+                        cases.append({"cfg": cfg, "faults": {str(pos): kind}, "K": 1})
+                if size == 13:
+                    cfg = dict(cfg, ack_limit=3, nak_limit=3, check_limit=3)
+                    kinds2 = ["drop"] if tier == "quick" else k2_kinds
+                    n0 = emission_count(key_of(cfg), ())
+                    for p1 in range(n0):
+                        for k1 in kinds2:
+                            n1 = emission_count(key_of(cfg), ((p1, k1),))
+                            for p2 in range(p1 + 1, n1 + 1):
+                                for k2 in kinds2:
+                                    cases.append({"cfg": cfg, "faults": {str(p1): k1, str(p2): k2}, "K": 2})
     rng = random.Random(77 + seed)
     for i in range(nrand):
         K = rng.choice([2, 3, 4, 5, 6])
@@ -101,6 +121,8 @@ def gen_cases(tier, seed):
         cfg["seg"] = seg
         cfg["crc"] = rng.random() < 0.3
         cfg["cks"] = rng.choice(["crc32", "crc32c", "modular", "null"])
+        if seg <= 8 and rng.random() < 0.4:
+            cfg["maxpkt"] = rng.choice([32, 36, 40, 48]) if not cfg["crc"] else rng.choice([34, 42, 50])
         cases.append({"cfg": cfg, "random": {"seed": seed * 1_000_003 + i, "K": K,
                                              "p": {"drop": 0.08, "dup": 0.04, "delay": 0.05, "quiet": 0.02, "late": 0.02}}, "K": K})
     return cases
